@@ -422,6 +422,64 @@ def plant_nan(rng, root):
         pass
 
 
+class _Slots:
+  """Records exactly what it was called with."""
+
+  def __init__(self, w=1.0, v=None, /, first=None, *rest, **kw):
+    self.got = {"w": w, "v": v, "first": first, "rest": rest, "kw": kw}
+
+
+def positional_gap_mirror_case(rng, res, label):
+  """The built object mirrors its configuration node slot by slot when defaulted positional-only parameters are
+  unset while several later positional / variadic children are set (shared, equal-but-distinct): every slot of
+  the built node holds the built object of the corresponding child, an unset slot the callee's default."""
+  leaf = fdl.Config(l2.fa, "leaf")
+  twin = fdl.Config(l2.fa, "leaf")
+  other = fdl.Config(l2.fa, "other")
+  pool = [leaf, other, twin, leaf]
+  n_rest = rng.randint(1, 4)
+  rest = [rng.choice(pool) for _ in range(n_rest)]
+  node = fdl.Config(_Slots, 0, 0, rng.choice(pool), *rest)
+  unset = rng.choice([[0], [1], [0, 1]])
+  for k in sorted(unset, reverse=True):
+    del node[k]
+  root = fdl.Config(l2.fd, a=leaf, n=node, o=[other, node])
+  res.evaluations += 1
+  res.count("positional-gap-mirror")
+  replay = {"label": label, "unset": unset, "rest": len(rest), "node": repr(node)[:400]}
+  try:
+    built = fdl.build(root)
+  except Exception as e:  # pylint: disable=broad-except
+    res.failures.append(Failure(None, f"C02 {label}: build raised {type(e).__name__}: {e}", replay))
+    return
+  kw = built.view["kw"]
+  b_node = kw["n"]
+  image = {id(leaf): kw["a"], id(other): kw["o"][0]}
+  problems = []
+  if kw["o"][1] is not b_node:
+    problems.append("two references to one Buildable received different built objects")
+  got = b_node.got
+  if (0 in unset and got["w"] != 1.0) or (1 in unset and got["v"] is not None):
+    problems.append(f"an unset positional-only parameter did not receive its default (w={got['w']!r}, v={got['v']!r})")
+  slots = [got["first"]] + list(got["rest"])
+  children = [node[2]] + rest
+  if len(slots) != len(children):
+    problems.append(f"the built node holds {len(slots)} positional values for {len(children)} configured children")
+  else:
+    for i, (s, c) in enumerate(zip(slots, children)):
+      if id(c) in image and s is not image[id(c)]:
+        problems.append(f"positional slot {i} does not hold the built object of its (shared) child")
+      if not isinstance(s, l2.Recorded):
+        problems.append(f"positional slot {i} holds {s!r}, not a built child")
+    twins = [s for s, c in zip(slots, children) if c is twin]
+    if any(s is image[id(leaf)] for s in twins) or len({id(s) for s in twins}) > 1:
+      problems.append("an equal-but-distinct Buildable shares or splits its built object")
+  if got["kw"]:
+    problems.append(f"unexpected keyword arguments {sorted(got['kw'])}")
+  for pr in problems[:1]:
+    res.failures.append(Failure(None, f"C02 {label}: {pr}", replay))
+
+
 def run(tier: str, seed: int) -> Result:
   rng = random.Random(seed * 15485863 + 2)
   res = Result()
@@ -443,6 +501,8 @@ def run(tier: str, seed: int) -> Result:
     one_case(rng, res, intern, stream, root, f"dag#{i}")
   for i in range(10 if tier == "quick" else 200):
     temporaries_case(rng, res, f"temp#{i}")
+  for i in range(30 if tier == "quick" else 600):
+    positional_gap_mirror_case(rng, res, f"gapmirror#{i}")
   failure_propagation_cases(res)
   for depth in ([50, 200] if tier == "quick" else [50, 100, 200, 300, 400]):
     deep_case(res, depth, f"deep{depth}")
